@@ -121,7 +121,10 @@ def hRbCase (args : List String) (real : Option String) : Option Out := do
     let model := showObs (Spec.C08.modelObs sc evs)
     let v := match real with
       | none => "-"
-      | some r => match obs? r with
+      | some r =>
+        -- the harness reports first of all whether client.OpenStream changed the (tracked) offset object it was given
+        if r.startsWith "offset-rewritten" then "FAIL C04.tracked-moved-by-open" else
+        match obs? r with
         | some o => match Spec.C08.failing sc evs o with
           | none => "ok"
           | some c => s!"FAIL C08.{c}"
